@@ -64,9 +64,10 @@ Lemma ctype_periodic (c : comp) :
   = is_periodic R c.
 Proof. unfold ctype, is_periodic. destruct (ck c); reflexivity. Qed.
 
-(* Circuit.__post_init__ *)
+(* Circuit.__post_init__   (the ground-node selection and the list of ids may be written in private module-level helpers:
+   Gen/CircuitGen.v lists those in the hint database gen_circuit_helpers) *)
 Theorem post_init_eq (cs : list comp) : gpost cs = map_res (fun g => mkCircuit cs g) (ground_node R cs).
-Proof. unfold g_Circuit_post_init, ground_node. destruct cs as [|c0 cs']; [reflexivity|].
+Proof. unfold g_Circuit_post_init, ground_node. autounfold with gen_circuit_helpers. destruct cs as [|c0 cs']; [reflexivity|].
   cbn [List.length Nat.eqb].
   rewrite (filter_ext' (fun c => label_eqb (ctype R c) (lbl "ground")) (is_ground R) (c0 :: cs') ctype_ground).
   unfold first_node. destruct (mapM _ (filter (is_ground R) (c0 :: cs'))) as [gn|e]; cbn [bind map_res]; [|reflexivity].
@@ -87,7 +88,7 @@ Proof. rewrite post_init_eq. destruct (ground_node R cs) as [g|e]; cbn [map_res]
 (* Circuit.__getitem__ *)
 Theorem getitem_eq (circ : Circuit R) (key : label) :
   g_Circuit_getitem R circ key = circuit_getitem R (Circuit_components R circ) key.
-Proof. unfold g_Circuit_getitem, circuit_getitem. generalize (Circuit_components R circ) as cs. intros cs.
+Proof. unfold g_Circuit_getitem, circuit_getitem. autounfold with gen_circuit_helpers. cbn [bind]. generalize (Circuit_components R circ) as cs. intros cs.
   induction cs as [|a cs IH]; [reflexivity|]. cbn [map list_index find].
   destruct (label_eqb (cid a) key); [reflexivity|].
   rewrite bind_assoc. cbn [bind]. rewrite <- IH. apply bind_ext. intros i. apply list_at_cons_S. Qed.
@@ -132,7 +133,7 @@ Proof. intros H. unfold g_transform, transform. apply mapM_same_outcome. intros 
 (* frequency_components *)
 Theorem gfrequencies_eq (wmax : R) (c : comp) :
   g_frequency_components_frequencies R ofZ flr wmax c = comp_frequencies R ofZ flr c wmax.
-Proof. unfold g_frequency_components_frequencies, comp_frequencies, vget.
+Proof. autounfold with gen_circuit_helpers. try unfold g_frequency_components_frequencies. unfold comp_frequencies, vget.
   destruct (vlook R (cvals c) (lbl "w")) as [w|]; cbn [try_except err_eqb]; [|reflexivity].
   rewrite ctype_periodic. destruct (is_periodic R c); [|reflexivity].
   unfold py_div. destruct (feqb R w (f0 R)); cbn [bind]; [reflexivity|].
@@ -140,7 +141,7 @@ Proof. unfold g_frequency_components_frequencies, comp_frequencies, vget.
 Theorem gfreq_eq (circ : Circuit R) (wmax : R) : gfreq circ wmax = hfreq (Circuit_components R circ) wmax.
 Proof. unfold g_frequency_components, frequency_components.
   rewrite (mapM_ext_in _ (fun c => comp_frequencies R ofZ flr c wmax)); [reflexivity|].
-  intros c _. apply gfrequencies_eq. Qed.
+  intros c _. exact (gfrequencies_eq wmax c). Qed.
 Corollary gfreq_eq' cs circ wmax : gpost cs = Ok circ -> gfreq circ wmax = hfreq cs wmax.
 Proof. intros H. rewrite gfreq_eq. destruct (post_init_ok cs circ H) as [_ ->]. reflexivity. Qed.
 
